@@ -28,6 +28,7 @@ THEOREMS = [
     "BeyondVerif.C11.station_origin_maps_to_zero",
     "BeyondVerif.C11.topo_round_trip",
     "BeyondVerif.C11.station_inertial_velocity",
+    "BeyondVerif.C11.create_station_from_degrees",
     "BeyondVerif.C11.range_per_leg",
     "BeyondVerif.C11.measures_are_spherical_components",
     "BeyondVerif.C11.fmod_two_pi_range",
@@ -56,6 +57,9 @@ TRUSTED = [
     "numpy semantics: `@` is the matrix product, np.linalg.inv of an orthonormal matrix is its transpose, `x in array` / np.where(==) is float equality, float % is floored modulo",
 ]
 ASSUMPTIONS = [
+    "station coordinates are given in a numeric kind for which numpy converts to float64 radians: Python int/float, numpy int32/int64/uint32/float64, "
+    "as tuple, list or array, also mixed (all generated in correspondence and oracle); narrow integer dtypes are a known finding, float32 input is "
+    "checked by the oracle to the precision of the input",
     "the station's parent frame is ITRF (alias WGS84), the default of create_station; equatorial=False",
     "pole motion / Earth-orientation rotations between ITRF and the inertial frames belong to C02; here only expand() and the rest state of the station enter",
     "theorems are over R; the implementation computes in IEEE doubles",
@@ -66,12 +70,16 @@ NOT_COVERED = ["the clause 'WGS-84' itself: station_on_ellipsoid_partial is abou
                "get_mask when no mask is set (raises ValueError) and create_station(mask=<ndarray>) (raises on `if mask`): outside the property",
                "light-time / signal-path effects in Range and Doppler (the code has none; the measures are instantaneous geometric quantities)",
                "visibility() iteration and the AOS/LOS/mask listeners (C10)"]
-OPEN = ["the ellipsoid has the WGS-84 flattening but the EGM-96 equatorial radius 6378136.3 m: stations are 0.7 m closer to the geocentre than WGS-84 coordinates say (known finding C11-station-ellipsoid-radius); all theorems are stated for the constants as they are in constants.py"]
-RULE = ("correspondence: stations on a lat/lon/alt grid (all quadrants, near-polar) + random; targets from 1 km to lunar distance in ITRF with velocities; ops geo / topom / "
+OPEN = ["coordinates given as int8/uint8/int16/uint16 numpy arrays are converted in float16/float32 (known finding C11-station-narrow-int-dtype); the model "
+        "(doubles / R) does not describe that rounding, so these kinds are kept out of the correspondence and covered by the oracle only",
+        "the ellipsoid has the WGS-84 flattening but the EGM-96 equatorial radius 6378136.3 m: stations are 0.7 m closer to the geocentre than WGS-84 coordinates say (known finding C11-station-ellipsoid-radius); all theorems are stated for the constants as they are in constants.py"]
+RULE = ("correspondence: stations on a lat/lon/alt grid (all quadrants, near-polar) + random, created through create_station from coordinates of 14 numeric kinds "
+        "(Python/numpy ints and floats, tuples, lists, arrays, mixed) with the model fed the exact values in degrees (op create + every station-frame op); targets from 1 km to lunar distance in ITRF with velocities; ops geo / topom / "
         "topo (copy(frame=station, form='spherical')) / meas (the four measures, paths of 2-4 nodes) / sta2itrf / expand / mask (random tables of 1-12 points incl. "
         "first azimuth 0, tables violating the convention, azimuths in [-4pi,4pi], exact hits, multiples of 2pi). non-trivial = generic input (not an edge constant); "
         "distinct = distinct request line. oracle: independent ENU computation in extended precision on the real API, ellipsoid membership/normal, rest in ITRF/PEF/TIRF, "
-        "omega x r and finite differences in inertial frames, measures vs ENU quantities, mask vs independent interpolation")
+        "omega x r and finite differences in inertial frames, measures vs ENU quantities, "
+        "station position/axes for every numeric kind of coordinates incl. narrow numpy dtypes, mask vs independent interpolation")
 
 TWO_PI = 2 * math.pi
 WGS84_A = 6378137.0
@@ -86,11 +94,75 @@ def _setup():
 _counter = itertools.count()
 
 
-def new_station(lat_deg, lon_deg, alt, mask=None):
+# numeric kinds in which create_station is given (latitude deg, longitude deg, altitude m).
+# WIDE: numpy turns them into float64 radians (modelled, compared in the correspondence);
+# NARROW_INT: exact small-integer numpy dtypes for which np.radians answers in float16 / float32 (oracle only, known finding);
+# float32: the input itself carries only 24 bits (oracle only, tolerance of the input's own precision).
+WIDE_KINDS = ["float-tuple", "float-list", "int-tuple", "int-list", "np-int64-array", "np-int32-array", "np-int64-scalars",
+              "np-float64-array", "np-float64-scalars", "mixed-int-float-int", "mixed-float-int-int", "mixed-int-int-float",
+              "mixed-npint32-float-npfloat", "np-uint32-array-or-int64"]
+NARROW_INT_KINDS = ["np-int8-array", "np-uint8-array", "np-int16-array", "np-uint16-array"]
+OTHER_KINDS = ["np-float32-array"]
+
+
+def typed_coords(kind, lat, lon, alt):
+    """(lat, lon, alt) in degrees / metres as an object of the given numeric kind; integer kinds round (latitude kept within +-89)"""
+    import numpy as np
+    il = max(-89, min(89, int(round(lat))))
+    io, ia = int(round(lon)), int(round(alt))
+    fl, fo, fa = float(lat), float(lon), float(alt)
+    if kind == "float-tuple":
+        return (fl, fo, fa)
+    if kind == "float-list":
+        return [fl, fo, fa]
+    if kind == "int-tuple":
+        return (il, io, ia)
+    if kind == "int-list":
+        return [il, io, ia]
+    if kind == "np-int64-array":
+        return np.array([il, io, ia], dtype=np.int64)
+    if kind == "np-int32-array":
+        return np.array([il, io, ia], dtype=np.int32)
+    if kind == "np-int64-scalars":
+        return (np.int64(il), np.int64(io), np.int64(ia))
+    if kind == "np-float64-array":
+        return np.array([fl, fo, fa], dtype=np.float64)
+    if kind == "np-float64-scalars":
+        return (np.float64(fl), np.float64(fo), np.float64(fa))
+    if kind == "mixed-int-float-int":
+        return (il, fo, ia)
+    if kind == "mixed-float-int-int":
+        return (fl, io, ia)
+    if kind == "mixed-int-int-float":
+        return [il, io, fa]
+    if kind == "mixed-npint32-float-npfloat":
+        return (np.int32(il), fo, np.float64(fa))
+    if kind == "np-uint32-array-or-int64":
+        return np.array([il, io, ia], dtype=np.uint32 if min(il, io, ia) >= 0 else np.int64)
+    if kind == "np-int8-array":
+        return np.array([il, max(-128, min(127, io if io <= 180 else io - 360)), max(-128, min(127, ia % 128))], dtype=np.int8)
+    if kind == "np-uint8-array":
+        return np.array([abs(il), io % 256, ia % 256], dtype=np.uint8)
+    if kind == "np-int16-array":
+        return np.array([il, io, ia], dtype=np.int16)
+    if kind == "np-uint16-array":
+        return np.array([abs(il), io % 360, abs(ia)], dtype=np.uint16)
+    if kind == "np-float32-array":
+        return np.array([fl, fo, fa], dtype=np.float32)
+    raise ValueError(kind)
+
+
+def new_station(lat_deg, lon_deg, alt, mask=None, kind="float-tuple"):
+    """returns the station created by beyond from coordinates of the given numeric kind; `st.c11_deg` holds the exact
+    values (as Python floats) of the coordinates that were passed in"""
     from beyond.frames.stations import create_station
     _setup()
     name = f"C11s{next(_counter)}"
-    st = create_station(name, (lat_deg, lon_deg, alt))
+    coords = typed_coords(kind, lat_deg, lon_deg, alt)
+    vals = [float(c) for c in coords]
+    st = create_station(name, coords)
+    st.c11_deg = vals
+    st.c11_kind = kind
     if mask is not None:
         import numpy as np
         st.mask = np.array(mask, dtype=float)
@@ -325,6 +397,84 @@ def check_target(out, st, inp_s, a, f, lat, lon, alt, r, v, date, npath, skind="
                      dict(inp, path_len=npath), observed=val, expected=exp[nm])
 
 
+def check_station_state(out, st, inp_s, a, f, lat, lon, alt, date, ref0, skind="", ckind="", fd_frame=None):
+    """one station: on the ellipsoid at its height along the normal, at the reference position, at rest in the Earth-fixed frames,
+    omega x r in the frames of the rotation axis, velocity = d(position)/dt in inertial frame `fd_frame`"""
+    import numpy as np
+    from beyond.dates import timedelta
+    from beyond.orbits import StateVector
+    lat_d, lon_d = inp_s["latlonalt_deg_m"][:2]
+    # --- the station sits on the ellipsoid at the given height, along the ellipsoid normal
+    origin = StateVector([0, 0, 0, 0, 0, 0], date, "cartesian", st)
+    s_itrf = np.array(origin.copy(frame="ITRF"))
+    out.count(key=("ellipsoid", lat_d, lon_d, alt), kind="station-ellipsoid", station=skind, coords=ckind)
+    L = np.longdouble
+    foot = np.array(s_itrf[:3], dtype=L) - L(alt) * ref0["U"]
+    b = L(a) * (1 - L(f))
+    lhs = (foot[0] ** 2 + foot[1] ** 2) / L(a) ** 2 + foot[2] ** 2 / b ** 2
+    grad = np.array([foot[0] / L(a) ** 2, foot[1] / L(a) ** 2, foot[2] / b ** 2], dtype=L)
+    grad = grad / np.sqrt(grad @ grad)
+    if not (abs(float(lhs - 1)) < 1e-12 and float(np.max(np.abs(grad - ref0["U"]))) < 1e-12):
+        out.fail("station-ellipsoid", "station minus alt*normal is not on the ellipsoid (a, a(1-f)) / the normal there is not the geodetic vertical", inp_s,
+                 observed={"position": list(map(float, s_itrf[:3])), "ellipsoid_lhs_minus_1": float(lhs - 1)}, expected={"position": list(map(float, ref0["s"]))})
+    if not float(np.max(np.abs(np.array(s_itrf[:3], dtype=L) - ref0["s"]))) < 1e-6:
+        out.fail("station-position", "station position differs from the geodetic -> ECEF formula evaluated independently", inp_s,
+                 observed=list(map(float, s_itrf[:3])), expected=list(map(float, ref0["s"])))
+    # --- at rest in the Earth-fixed frames
+    out.count(key=("rest", lat_d, lon_d, alt), kind="station-rest", station=skind)
+    for fr in ("ITRF", "PEF", "TIRF"):
+        vv = np.array(origin.copy(frame=fr))[3:]
+        if not np.all(np.abs(vv) < 1e-12):
+            out.fail("station-not-at-rest-" + fr, f"station has a non-zero velocity in the Earth-fixed frame {fr}", dict(inp_s, date=str(date)), observed=list(map(float, vv)), expected=[0, 0, 0])
+    # --- moves with the Earth's rotation in inertial frames
+    om = 7.292115146706979e-5 * (1 - (date.eop.lod / 1000.0) / 86400.0)
+    for fr in ("TOD", "CIRF"):
+        sv = np.array(origin.copy(frame=fr))
+        exp = np.array([-om * sv[1], om * sv[0], 0.0])
+        out.count(key=("omega", fr, lat_d, lon_d), kind="station-omega-cross-r", frame=fr)
+        if not np.allclose(sv[3:], exp, rtol=0, atol=1e-9):
+            out.fail("station-inertial-velocity-" + fr, "station velocity in the frame of the rotation axis is not omega x r", dict(inp_s, date=str(date), frame=fr),
+                     observed=list(map(float, sv[3:])), expected=list(map(float, exp)))
+    if fd_frame:
+        fr = fd_frame
+        h = 30.0
+        pts = {}
+        for dt in (-2 * h, -h, h, 2 * h):
+            o = StateVector([0, 0, 0, 0, 0, 0], date + timedelta(seconds=dt), "cartesian", st)
+            pts[dt] = np.array(o.copy(frame=fr))[:3]
+        fd = (8 * (pts[h] - pts[-h]) - (pts[2 * h] - pts[-2 * h])) / (12 * h)
+        vv = np.array(origin.copy(frame=fr))[3:]
+        out.count(key=("fd", fr, lat_d, lon_d), kind="station-velocity-finite-difference", frame=fr)
+        if not np.allclose(vv, fd, rtol=0, atol=3e-3):
+            out.fail("station-inertial-velocity-" + fr, "station velocity in an inertial frame is not the time derivative of its position there",
+                     dict(inp_s, date=str(date), frame=fr), observed=list(map(float, vv)), expected=list(map(float, fd)))
+
+def check_coords_kind(out, kind, lat_d, lon_d, alt, a, f):
+    """create_station(coordinates of the given numeric kind): position and axes vs the reference evaluated on the exact values"""
+    import numpy as np
+    st = new_station(lat_d, lon_d, alt, kind=kind)
+    lat_d, lon_d, alt = st.c11_deg
+    ref = enu_reference(a, f, math.radians(lat_d), math.radians(lon_d), alt, [0, 0, 0], [0, 0, 0])
+    pos = np.array([float(c) for c in st.center.offset[:3]])
+    m = np.array(st.orientation._m, dtype=float)
+    axes = np.array([[float(c) for c in ref[k]] for k in ("N", "E", "U")])
+    axes[1] = -axes[1]
+    drop_station(st)
+    out.count(key=("coords", kind, lat_d, lon_d, alt), kind="station-coordinates", coords=kind)
+    tol_p, tol_m = 1e-6, 1e-12
+    if kind == "np-float32-array":   # the input carries 24 bits; the code converts it to radians in that precision
+        e32 = float(np.finfo(np.float32).eps)
+        ang = e32 * (abs(math.radians(lat_d)) + abs(math.radians(lon_d)) + 1e-3)
+        tol_p, tol_m = 1e-6 + 7e6 * ang, 1e-12 + 2 * ang
+    dp = float(np.max(np.abs(pos - np.array([float(c) for c in ref["s"]]))))
+    dm = float(np.max(np.abs(m.T - axes)))
+    if not (dp <= tol_p and dm <= tol_m):
+        fam = "station-coordinates-narrow-int-dtype" if kind in NARROW_INT_KINDS else "station-coordinates-" + kind
+        out.fail(fam, f"a station created from coordinates given as {kind} is not at the place / does not have the north-west-up axes of those coordinates",
+                 {"latlonalt_deg_m": [lat_d, lon_d, alt], "coords_kind": kind}, observed={"position": pos.tolist(), "position_error_m": dp, "axes_error": dm},
+                 expected={"position": [float(c) for c in ref["s"]]})
+
+
 def check_mask(out, st, az, el, x, mkind="", akind="random"):
     """get_mask(x) on the table (az, el) vs the independent piecewise-linear interpolation"""
     import numpy as np
@@ -377,55 +527,15 @@ def oracle(ctx, widened):
     wgs_done = 0
     for k in range(n_st):
         lat_d, lon_d, alt, skind = gen_station(rng, k)
-        st = new_station(lat_d, lon_d, alt)
+        ckind = "float-tuple" if rng.random() < 0.4 else rng.choice(WIDE_KINDS)
+        st = new_station(lat_d, lon_d, alt, kind=ckind)
+        lat_d, lon_d, alt = st.c11_deg
         lat, lon = math.radians(lat_d), math.radians(lon_d)
-        inp_s = {"latlonalt_deg_m": [lat_d, lon_d, alt]}
+        inp_s = {"latlonalt_deg_m": [lat_d, lon_d, alt], "coords_kind": ckind}
         ref0 = enu_reference(a, f, lat, lon, alt, [0, 0, 0], [0, 0, 0])
         date = d0 + timedelta(seconds=rng.uniform(0, 4e7))
-        # --- the station sits on the ellipsoid at the given height, along the ellipsoid normal
-        origin = StateVector([0, 0, 0, 0, 0, 0], date, "cartesian", st)
-        s_itrf = np.array(origin.copy(frame="ITRF"))
-        out.count(key=("ellipsoid", lat_d, lon_d, alt), kind="station-ellipsoid", station=skind)
-        L = np.longdouble
-        foot = np.array(s_itrf[:3], dtype=L) - L(alt) * ref0["U"]
-        b = L(a) * (1 - L(f))
-        lhs = (foot[0] ** 2 + foot[1] ** 2) / L(a) ** 2 + foot[2] ** 2 / b ** 2
-        grad = np.array([foot[0] / L(a) ** 2, foot[1] / L(a) ** 2, foot[2] / b ** 2], dtype=L)
-        grad = grad / np.sqrt(grad @ grad)
-        if not (abs(float(lhs - 1)) < 1e-12 and float(np.max(np.abs(grad - ref0["U"]))) < 1e-12):
-            out.fail("station-ellipsoid", "station minus alt*normal is not on the ellipsoid (a, a(1-f)) / the normal there is not the geodetic vertical", inp_s,
-                     observed={"position": list(map(float, s_itrf[:3])), "ellipsoid_lhs_minus_1": float(lhs - 1)}, expected={"position": list(map(float, ref0["s"]))})
-        if not float(np.max(np.abs(np.array(s_itrf[:3], dtype=L) - ref0["s"]))) < 1e-6:
-            out.fail("station-position", "station position differs from the geodetic -> ECEF formula evaluated independently", inp_s,
-                     observed=list(map(float, s_itrf[:3])), expected=list(map(float, ref0["s"])))
-        # --- at rest in the Earth-fixed frames
-        out.count(key=("rest", lat_d, lon_d, alt), kind="station-rest", station=skind)
-        for fr in ("ITRF", "PEF", "TIRF"):
-            vv = np.array(origin.copy(frame=fr))[3:]
-            if not np.all(np.abs(vv) < 1e-12):
-                out.fail("station-not-at-rest-" + fr, f"station has a non-zero velocity in the Earth-fixed frame {fr}", dict(inp_s, date=str(date)), observed=list(map(float, vv)), expected=[0, 0, 0])
-        # --- moves with the Earth's rotation in inertial frames
-        om = 7.292115146706979e-5 * (1 - (date.eop.lod / 1000.0) / 86400.0)
-        for fr in ("TOD", "CIRF"):
-            sv = np.array(origin.copy(frame=fr))
-            exp = np.array([-om * sv[1], om * sv[0], 0.0])
-            out.count(key=("omega", fr, lat_d, lon_d), kind="station-omega-cross-r", frame=fr)
-            if not np.allclose(sv[3:], exp, rtol=0, atol=1e-9):
-                out.fail("station-inertial-velocity-" + fr, "station velocity in the frame of the rotation axis is not omega x r", dict(inp_s, date=str(date), frame=fr),
-                         observed=list(map(float, sv[3:])), expected=list(map(float, exp)))
-        if k % 3 == 0:
-            fr = rng.choice(["EME2000", "MOD", "GCRF", "TEME", "G50"])
-            h = 30.0
-            pts = {}
-            for dt in (-2 * h, -h, h, 2 * h):
-                o = StateVector([0, 0, 0, 0, 0, 0], date + timedelta(seconds=dt), "cartesian", st)
-                pts[dt] = np.array(o.copy(frame=fr))[:3]
-            fd = (8 * (pts[h] - pts[-h]) - (pts[2 * h] - pts[-2 * h])) / (12 * h)
-            vv = np.array(origin.copy(frame=fr))[3:]
-            out.count(key=("fd", fr, lat_d, lon_d), kind="station-velocity-finite-difference", frame=fr)
-            if not np.allclose(vv, fd, rtol=0, atol=3e-3):
-                out.fail("station-inertial-velocity-" + fr, "station velocity in an inertial frame is not the time derivative of its position there",
-                         dict(inp_s, date=str(date), frame=fr), observed=list(map(float, vv)), expected=list(map(float, fd)))
+        check_station_state(out, st, inp_s, a, f, lat, lon, alt, date, ref0, skind, ckind,
+                            rng.choice(["EME2000", "MOD", "GCRF", "TEME", "G50"]) if k % 3 == 0 else None)
         # --- targets: topocentric spherical coordinates vs ENU
         for _ in range(n_tg):
             r, v, tkind = gen_target(rng, [float(c) for c in ref0["s"]], [float(c) for c in ref0["U"]])
@@ -453,6 +563,11 @@ def oracle(ctx, widened):
             wgs_done += 1
             check_wgs84(out, st, inp_s, a, f, lat, lon, alt, date)
         drop_station(st)
+    # --- the station is where its coordinates say, whatever numeric kind they are given in
+    for kind in WIDE_KINDS + NARROW_INT_KINDS + OTHER_KINDS:
+        for _ in range(12 if big else 3):
+            lat_d, lon_d, alt, _sk = gen_station(rng)
+            check_coords_kind(out, kind, lat_d, lon_d, alt, a, f)
     # --- horizon mask
     st = new_station(10.0, 20.0, 30.0)
     n_tab = 3000 if big else 150
@@ -550,6 +665,24 @@ def build_generated():
     parts.append("/-- `TopocentricFrame._geodetic_to_cartesian` (position part; the velocity part is the literal 0, 0, 0) -/\n" +
                  py2lean.translate_slice(spath, "TopocentricFrame._geodetic_to_cartesian", ["lat", "lon", "alt"], ["x", "y", "z"], "geodeticToCartesian",
                                          result_expr="[x, y, z]", consts={"Earth.r": "earthR", "Earth.e": "earthE", "Earth.f": "earthF"}) + "\n")
+    # 3b. stations.py: create_station — how the coordinates given by the caller reach the two functions above
+    cfn = py2lean.find_function(ast.parse(open(spath).read()), "create_station")
+    csrc = [ast.unparse(x) for x in cfn.body]
+    need = ["latlonalt = list(latlonalt)", "latlonalt[:2] = np.radians(latlonalt[:2])",
+            "coordinates = TopocentricFrame._geodetic_to_cartesian(*latlonalt)",
+            "c.add_link(parent_frame.center, parent_frame.orientation, coordinates)"]
+    idx = [csrc.index(x) if x in csrc else -1 for x in need]
+    if -1 in idx or idx != sorted(idx) or idx[:3] != list(range(idx[0], idx[0] + 3)):
+        raise py2lean.Untranslatable("create_station: the coordinates are no longer copied into a list, converted by np.radians on [:2] "
+                                     "and passed to _geodetic_to_cartesian / add_link as before: " + "; ".join(n for n, i in zip(need, idx) if i == -1))
+    if not any("orient.TopocentricOrientation(name, latlonalt, parent=parent_frame.orientation)" in x for x in csrc):
+        raise py2lean.Untranslatable("create_station: TopocentricOrientation is no longer built from the converted latlonalt")
+    rad = cfn.body[idx[1]].value                      # np.radians(latlonalt[:2]) — elementwise on list items, each of its own type
+    rad = copy.deepcopy(rad)
+    rad.args = [ast.Name("deg", ast.Load())]
+    parts.append("/-- the conversion `create_station` applies to latitude and longitude (a Python list, so element by element and without a\n"
+                 "common dtype): `latlonalt[:2] = np.radians(latlonalt[:2])`; the altitude is passed on as given -/\n"
+                 f"def stationRadians (deg : R) : R :=\n  {tr.expr(rad)}\n\n")
     # 4. orient.py: the topocentric matrix
     otree = _tree("frames", "orient.py")
     ofn = py2lean.find_function(otree, "TopocentricOrientation.__init__")
@@ -658,9 +791,18 @@ def correspondence(ctx):
     MEAS = [Range, Azimut, Elevation, Doppler]
     for k in range(n_st):
         lat_d, lon_d, alt, skind = gen_station(rng, k)
-        st = new_station(lat_d, lon_d, alt)
-        lat, lon, alt = (float(c) for c in st.latlonalt)
-        inp_s = {"latlonalt_deg_m": [lat_d, lon_d, alt]}
+        ckind = "float-tuple" if rng.random() < 0.4 else rng.choice(WIDE_KINDS)
+        st = new_station(lat_d, lon_d, alt, kind=ckind)
+        lat_d, lon_d, alt_d = st.c11_deg             # exact values of what was passed to create_station
+        lat, lon, alt = (float(c) for c in st.latlonalt)   # what the code made of them (radians, metres)
+        inp_s = {"latlonalt_deg_m": [lat_d, lon_d, alt_d], "coords_kind": ckind}
+        degs = [f2b(lat_d), f2b(lon_d), f2b(alt_d)]
+        # create_station itself: position of the centre link and orientation matrix from the coordinates as given
+        req = " ".join(["c11create"] + degs)
+        created = [float(c) for c in st.center.offset[:3]] + [float(c) for c in np.array(st.orientation._m).flatten()] + [lat, lon, alt]
+        add(req, lambda rep, real=created, i=inp_s: _cmp(out, "create", "create_station (centre offset, orientation matrix, stored radians)", i, real, rep,
+                                                          [2e-8] * 3 + [1e-14] * 9 + [1e-15, 2e-15, 0.0]))
+        out.count(key=req, kind="create", station=skind, coords=ckind)
         date = date0 + timedelta(seconds=rng.uniform(0, 3e7))
         g = TopocentricFrame._geodetic_to_cartesian(lat, lon, alt)
         spos = [float(c) for c in g[:3]]
@@ -675,7 +817,7 @@ def correspondence(ctx):
         # the station origin seen from the parent frame, and a generic station-frame state
         for loc in ([0.0] * 6, [rng.uniform(-1e5, 1e5) for _ in range(3)] + [rng.uniform(-100, 100) for _ in range(3)]):
             real = np.array(StateVector(loc, date, "cartesian", st).copy(frame="ITRF"))
-            req = " ".join(["c11back", f2b(lat), f2b(lon), f2b(alt)] + [f2b(c) for c in loc])
+            req = " ".join(["c11back"] + degs + [f2b(c) for c in loc])
             add(req, lambda rep, real=real, i=dict(inp_s, state=loc): _cmp(out, "back", "station frame -> ITRF", i, list(real), rep, [2e-8] * 3 + [1e-12] * 3))
             out.count(key=req, kind="back", nontrivial=any(loc))
         for _ in range(n_tg):
@@ -684,7 +826,7 @@ def correspondence(ctx):
             sv = StateVector(x, date, "cartesian", "ITRF")
             cart = np.array(sv.copy(frame=st, form="cartesian"))
             sph = np.array(sv.copy(frame=st, form="spherical"))
-            req = " ".join(["c11topo", f2b(lat), f2b(lon), f2b(alt)] + [f2b(c) for c in x])
+            req = " ".join(["c11topo"] + degs + [f2b(c) for c in x])
             rg = float(sph[0])
             hz = max(math.hypot(cart[0], cart[1]), 1e-300)
             sp = float(np.linalg.norm(v))
@@ -704,7 +846,7 @@ def correspondence(ctx):
                 npath = rng.choice([2, 3, 4])
                 path = tuple([st] + ["sat", st, "relay"][: npath - 1])
                 val = float(MEAS[ki](path, date, 0.0).from_orbit(sv).value)
-                req = " ".join(["c11meas", str(ki), str(npath), f2b(lat), f2b(lon), f2b(alt)] + [f2b(c) for c in x])
+                req = " ".join(["c11meas", str(ki), str(npath)] + degs + [f2b(c) for c in x])
                 tol = [dl * (npath - 1), tols[7] if not skip else 10.0, tols[8], tols[9]][ki]
                 add(req, lambda rep, val=val, i=dict(inp, measure=MEAS[ki].__name__, path_len=npath), t=tol, ki=ki:
                     _cmp(out, "meas", "measure value", i, [val], rep, [t], angles=(0,) if ki == 1 else ()))
@@ -757,7 +899,7 @@ def correspondence(ctx):
             add(req, lambda rep, got=got, inp={"azimuths": az, "elevations": el, "azim": x}: mask_check(rep, got, inp))
             out.count(key=req, kind="mask-" + akind, table=mkind, npoints=len(az), nontrivial=akind in ("random", "wrap-segment", "hit-shifted"))
     drop_station(st)
-    replies = core.Driver().run(reqs)
+    replies = core.Driver(ID).run(reqs)
     for req, fn, rep in zip(reqs, checks, replies):
         fn(rep)
         if req.split()[0] in ("c11topo", "c11mask", "c11meas"):
@@ -780,11 +922,28 @@ def replay(failure):
         check_mask(out, st, inp["azimuths"], inp["elevations"], inp["azim"], akind=inp.get("akind", "random"))
         drop_station(st)
         return out
+    if fam.startswith("station-coordinates") and isinstance(inp, dict) and "coords_kind" in inp:
+        check_coords_kind(out, inp["coords_kind"], *inp["latlonalt_deg_m"], a, f)
+        return out
+    if isinstance(inp, dict) and "latlonalt_deg_m" in inp and "target_itrf" not in inp and "state" not in inp:
+        lat_d, lon_d, alt = inp["latlonalt_deg_m"]
+        ckind = inp.get("coords_kind", "float-tuple")
+        st = new_station(lat_d, lon_d, alt, kind=ckind)
+        lat_d, lon_d, alt = st.c11_deg
+        lat, lon = math.radians(lat_d), math.radians(lon_d)
+        ref0 = enu_reference(a, f, lat, lon, alt, [0, 0, 0], [0, 0, 0])
+        check_station_state(out, st, {"latlonalt_deg_m": [lat_d, lon_d, alt], "coords_kind": ckind}, a, f, lat, lon, alt, date, ref0,
+                            ckind=ckind, fd_frame=inp.get("frame") if inp.get("frame") not in (None, "TOD", "CIRF") else None)
+        drop_station(st)
+        out.failures = [x for x in out.failures if x["family"] == fam] or out.failures
+        return out
     if isinstance(inp, dict) and "latlonalt_deg_m" in inp and "target_itrf" in inp:
         lat_d, lon_d, alt = inp["latlonalt_deg_m"]
-        st = new_station(lat_d, lon_d, alt)
+        ckind = inp.get("coords_kind", "float-tuple")
+        st = new_station(lat_d, lon_d, alt, kind=ckind)
+        lat_d, lon_d, alt = st.c11_deg
         lat, lon = math.radians(lat_d), math.radians(lon_d)
-        inp_s = {"latlonalt_deg_m": [lat_d, lon_d, alt]}
+        inp_s = {"latlonalt_deg_m": [lat_d, lon_d, alt], "coords_kind": ckind}
         if fam.startswith("station-ellipsoid"):
             check_wgs84(out, st, inp_s, a, f, lat, lon, alt, date)
         else:
